@@ -36,6 +36,13 @@ func genFuzz(r *lib.RNG, thorough bool) (*Scenario, *World) {
 	if r.Chance(1, 10) {
 		cfg.VMod = 0
 	}
+	if r.Chance(1, 8) {
+		// 64-bit tallies: sums of these powers wrap around (the model wraps at 2^64 too)
+		cfg.Powers = lib.Pick(r, [][]uint64{{1 << 63, 1 << 63, 1, 1}, {1 << 63, 1<<63 - 1, 1 << 62, 1 << 62}, {^uint64(0), 1, 1, 1}, {1 << 62, 1 << 62, 1 << 62, 1 << 62}})
+		cfg.Tbl = []int{0, 1, 2, 3}
+		cfg.Total = lib.Pick(r, []uint64{^uint64(0), 1 << 63, 1<<63 + 1, 1 << 62, 3})
+		n = 4
+	}
 	me := r.Intn(n)
 	start := uint64(lib.Pick(r, []int{0, 0, 1, 5}))
 	sc := &Scenario{Cfg: cfg, Nodes: []NodeSpec{{Node: me, Height: start, VBase: uint64(lib.Pick(r, []int{400, 8, 7})), VStep: uint64(lib.Pick(r, []int{4, 0, 1}))}}}
